@@ -31,6 +31,15 @@ def embeddings(pattern, host, induced, node_attrs=NA, edge_attrs=EA, hrule=True)
     return ms
 
 
+def with_defaults(G):
+    """the documented defaults of the boolean subgraph tests: element '*', charge 0"""
+    H = G.copy()
+    for n in H.nodes:
+        H.nodes[n].setdefault("element", "*")
+        H.nodes[n].setdefault("charge", 0)
+    return H
+
+
 def enc(x):
     return base64.b64encode(pickle.dumps(x)).decode()
 
@@ -56,7 +65,7 @@ def check_pair(g1, g2, fails, tags):
     # boolean subgraph tests, both copies, filters on/off, induced / monomorphism
     for fn, name in ((SubgraphMatch.subgraph_isomorphism, "SubgraphMatch.subgraph_isomorphism"), (GM.subgraph_isomorphism, "graph_morphism.subgraph_isomorphism")):
         for check_type in ("induced", "mono"):
-            want = bool(embeddings(g2, g1, induced=(check_type == "induced"), hrule=False))
+            want = bool(embeddings(with_defaults(g2), with_defaults(g1), induced=(check_type == "induced"), hrule=False))
             for uf in (False, True):
                 got = fn(g2, g1, use_filter=uf, check_type=check_type)
                 if got != want:
@@ -96,6 +105,11 @@ def run(tw, tier, seed, only=None):
     small = gen.labelled_graphs(3, elems=("C", "O"), orders=(1, 2), hcounts=(0, 1), limit=90 if tier == "quick" else 400, rng=rng)
     for g in small:
         g.graph.clear()
+        for n in g.nodes:                # some atoms rely on the documented defaults (no charge / hcount key)
+            if rng.random() < 0.3:
+                g.nodes[n].pop("charge", None)
+            if rng.random() < 0.2:
+                g.nodes[n].pop("hcount", None)
     pool = small
     for _ in range(250 if tier == "quick" else 3000):
         a = rng.choice(pool)
